@@ -1,5 +1,5 @@
 // govc:pkg .
-// govc:bound second test: 20 feeds of one query with FIVE aggregates over nested-field expressions that share their first field (sum(n.x), sum(n.x + n.y), max(n.x * 2), min(n.y), nth_value(n.x, 2)); first test: 8 aggregate SELECT items (sum, avg, min, max, count(col), count(*), first_value, last_value, collect, expression arguments) x 30 (thorough: 120) random feeds of 18 rows over 3 groups with NULL and missing inputs, two consecutive batches per group (state must not leak)
+// govc:bound second test: 20 feeds of one query with FIVE aggregates over nested-field expressions that share their first field (sum(n.x), sum(n.x + n.y), max(n.x * 2), min(n.y), nth_value(n.x, 2)); third test: merge_agg over three batches of five values (float64 needing more than float32 precision, large integers, text with a comma, float32, bool); first test: 8 aggregate SELECT items (sum, avg, min, max, count(col), count(*), first_value, last_value, collect, expression arguments) x 30 (thorough: 120) random feeds of 18 rows over 3 groups with NULL and missing inputs, two consecutive batches per group (state must not leak)
 // Bounded stand-in (NOT a proof) for the wiring around the accumulators under contract (NULL skipping and numeric
 // coercion in GroupAggregator.Add, expression arguments evaluated per row, reset between batches, partitioning by key).
 package streamsql
@@ -10,6 +10,8 @@ import (
 	"math"
 	"math/rand"
 	"reflect"
+	"strconv"
+	"strings"
 	"sync"
 	"testing"
 	"time"
@@ -292,6 +294,73 @@ func TestGovcBounded_aggregates_expression_arguments_per_aggregate(t *testing.T)
 		}
 	}
 	fmt.Printf("GOVC-BOUNDED-DONE aggregates_multi cases=%d failures=%d\n", cases, fails)
+	if fails > 0 {
+		t.Fail()
+	}
+}
+
+// merge_agg joins the values' spellings with ','; a float64 is spelled with the shortest digits that give the same
+// float64 back (so 16777217 is not 16777216), an integer in decimal, text as it is; two consecutive batches.
+func TestGovcBounded_merge_agg_spelling(t *testing.T) {
+	batches := [][]any{
+		{16777217.0, 1234567.891, 0.1, 3.0, -2.5},
+		{int(7), int64(9007199254740993), "a,b", 2.5e-7, 1e21},
+		{float32(1.5), true, "x", 100.0, 123456789.125},
+	}
+	spell := func(v any) string {
+		switch x := v.(type) {
+		case float64:
+			return strconv.FormatFloat(x, 'f', -1, 64)
+		case float32:
+			return strconv.FormatFloat(float64(x), 'f', -1, 32)
+		}
+		return fmt.Sprint(v)
+	}
+	s := New()
+	defer s.Stop()
+	cases, fails := 0, 0
+	if err := s.Execute("SELECT g, merge_agg(v) AS m FROM stream GROUP BY g, CountingWindow(5)"); err != nil {
+		fmt.Printf("GOVC-BOUNDED-FAIL merge_agg_spelling: execute: %v\n", err)
+		fmt.Printf("GOVC-BOUNDED-DONE merge_agg_spelling cases=1 failures=1\n")
+		t.Fail()
+		return
+	}
+	var mu sync.Mutex
+	var got []map[string]any
+	s.AddSyncSink(func(rs []map[string]any) {
+		mu.Lock()
+		defer mu.Unlock()
+		got = append(got, rs...)
+	})
+	for bi, b := range batches {
+		cases++
+		var want []string
+		for _, v := range b {
+			want = append(want, spell(v))
+			s.Emit(map[string]any{"g": "k", "v": v})
+		}
+		deadline := time.Now().Add(15 * time.Second)
+		for time.Now().Before(deadline) {
+			mu.Lock()
+			n := len(got)
+			mu.Unlock()
+			if n > bi {
+				break
+			}
+			time.Sleep(time.Millisecond)
+		}
+		mu.Lock()
+		var m any
+		if len(got) > bi {
+			m = got[bi]["m"]
+		}
+		mu.Unlock()
+		if fmt.Sprint(m) != strings.Join(want, ",") {
+			fails++
+			fmt.Printf("GOVC-BOUNDED-FAIL merge_agg_spelling batch=%d values=%v: merge_agg = %q, want %q\n", bi, b, fmt.Sprint(m), strings.Join(want, ","))
+		}
+	}
+	fmt.Printf("GOVC-BOUNDED-DONE merge_agg_spelling cases=%d failures=%d\n", cases, fails)
 	if fails > 0 {
 		t.Fail()
 	}
